@@ -16,7 +16,7 @@ REPO = os.environ.get('VERIF_REPO', '/repo')
 SENTINEL = b'OLD CONTENTS, MUST SURVIVE A FAILED RUN\n'
 
 
-def run_cli(argv, cwd, timeout=120):
+def run_cli(argv, cwd, timeout=900):
     env = dict(os.environ)
     env['PYTHONPATH'] = REPO
     env['PYTHONDONTWRITEBYTECODE'] = '1'
